@@ -2,151 +2,142 @@
 (***************************************************************************)
 (* Trace specification for executions of the real Reader (record mode).    *)
 (* Every constraint below is a consequence of a listed property (C02, C05, *)
-(* C06, C07, C09, C11, C17), never of an implementation detail.  The spec  *)
-(* is total: every event is consumed; the first predicate that is false on *)
-(* the recorded values is stored in `bad` and reported by the invariant.   *)
+(* C06, C07, C08, C09, C11, C17), never of an implementation detail.  The  *)
+(* spec is total: every event is consumed; each run (Reset .. next Reset)  *)
+(* is judged on its own and the first predicate that is false on the      *)
+(* recorded values is printed as <<"VIOLATION_AT", line, predicate>>.      *)
 (*                                                                         *)
 (* Events (ndjson, one per line):                                          *)
-(*  Reset   run, mode ("clean"|"damaged"|"truncated"|"nock"), total,       *)
-(*          from, to (block range, 0 = none), ck                           *)
-(*  Read    n, got (digest of the bytes returned), want (digest of the     *)
-(*          expected bytes at the same offset, "overflow" if beyond),      *)
-(*          err ("none"|"eof"|"err"|"closed"), len (buffer length)         *)
-(*  Close   err                                                            *)
-(*  R_SPAWN first, n          R_JOIN                                       *)
-(*  D_SEEN  id, tok (value observed: id-1 or -1)                           *)
-(*  D_REL   id      (end of the shared section: D_READ1 or failure path)   *)
+(*  Reset   run, mode ("clean"|"damaged"|"truncated"|"nock"|"srcfault"),   *)
+(*          total (number of bytes a correct reader delivers), from, to    *)
+(*  Read    n, len (buffer length), got (digest of the bytes returned),    *)
+(*          want (digest of the expected bytes at the same offset,         *)
+(*          "overflow" if beyond), err ("none"|"eof"|"err"|"closed")       *)
+(*  Close   err          GetRead v                                         *)
+(*  SRC_FAIL complete    (the underlying source returned an error; complete *)
+(*          = every byte of the stream had been handed over by then: such  *)
+(*          a failure is immaterial and not required to be reported)       *)
+(*  R_SPAWN first, n     R_JOIN                                            *)
+(*  D_SEEN  id, tok (value observed by the spin loop: id-1 or -1)          *)
+(*  D_REL   id      (end of the shared section)                            *)
 (*  D_DEC   id      (block decoded: inverse transform done)                *)
-(*  D_FIN0  id, err (0 = none), dec                                        *)
-(*  D_FIN1  id, counter                                                    *)
+(*  D_FIN0  id, err (0 = none), dec      D_FIN1  id, counter               *)
 (***************************************************************************)
 EXTENDS Integers, Sequences, FiniteSets, TLC, Json, IOUtils
 
 Trace == ndJsonDeserialize(IOEnv.TRACE_FILE)
 
-VARIABLES l,          \* next line
-          mode, total, from, to,
-          delivered,  \* bytes returned so far in this run
-          errRep,     \* an error was returned to the caller
-          eofRep,     \* a clean EOF was returned
-          closedRep,  \* Close was called
-          holder,     \* task currently inside the shared section (0 = none)
-          lastTok,    \* id of the last task that acquired the stream
-          cancelled,  \* a task published a failure / end of stream
-          open,       \* tasks of the current batch that have not finished
-          callErr,    \* some task failed since the last API return
-          bad         \* name of the first violated predicate, "none" otherwise
+VARIABLES l,   \* next line
+          s    \* the abstract state of the current run (a record)
 
-vars == <<l, mode, total, from, to, delivered, errRep, eofRep, closedRep, holder, lastTok, cancelled, open, callErr, bad>>
+vars == <<l, s>>
 
-Init == /\ l = 1 /\ mode = "clean" /\ total = 0 /\ from = 0 /\ to = 0
-        /\ delivered = 0 /\ errRep = FALSE /\ eofRep = FALSE /\ closedRep = FALSE
-        /\ holder = 0 /\ lastTok = 0 /\ cancelled = FALSE /\ open = {} /\ callErr = FALSE
-        /\ bad = "none"
+Fresh == [mode |-> "clean", total |-> 0, from |-> 0, to |-> 0,
+          delivered |-> 0,     \* bytes returned so far
+          errRep |-> FALSE,    \* an error was returned to the caller
+          eofRep |-> FALSE,    \* a clean EOF was returned
+          closedRep |-> FALSE, \* Close was called
+          holder |-> 0,        \* task inside the shared section (0 = none)
+          lastTok |-> 0,       \* id of the last task that acquired the stream
+          open |-> {},         \* tasks of the current batch that have not finished
+          callErr |-> FALSE,   \* some task failed since the last API return
+          srcFailed |-> FALSE, \* the source reported a failure that no API call has reported yet
+          lastGetRead |-> 0,
+          bad |-> "none"]      \* first violated predicate of the run
 
-Flag(cond, name) == IF bad = "none" /\ ~cond THEN name ELSE bad
+Init == l = 1 /\ s = Fresh
 
-InRange(i) == (from = 0 \/ i >= from) /\ (to = 0 \/ i < to)
+\* first violated predicate wins
+Check(st, cond, name) == IF st.bad = "none" /\ ~cond THEN [st EXCEPT !.bad = name] ELSE st
+
+RECURSIVE CheckAll(_, _)
+CheckAll(st, cs) == IF cs = <<>> THEN st ELSE CheckAll(Check(st, cs[1][1], cs[1][2]), Tail(cs))
+
+InRange(i) == (s.from = 0 \/ i >= s.from) /\ (s.to = 0 \/ i < s.to)
 
 Reset(e) ==
-    /\ mode' = e.mode /\ total' = e.total /\ from' = e.from /\ to' = e.to
-    /\ delivered' = 0 /\ errRep' = FALSE /\ eofRep' = FALSE /\ closedRep' = FALSE
-    /\ holder' = 0 /\ lastTok' = 0 /\ cancelled' = FALSE /\ callErr' = FALSE
     \* C07: no task of the previous run is still alive
-    /\ bad' = Flag(open = {}, "C07_task_outlives_run")
-    /\ open' = {}
+    Check([Fresh EXCEPT !.mode = e.mode, !.total = e.total, !.from = e.from, !.to = e.to],
+          s.open = {}, "C07_task_outlives_run")
 
 Read(e) ==
-    /\ delivered' = delivered + e.n
-    /\ errRep' = (errRep \/ e.err = "err")
-    /\ eofRep' = (eofRep \/ e.err = "eof")
-    /\ callErr' = FALSE
-    /\ bad' =
-         \* C05/C02/C11/C01: the bytes returned are the next expected bytes
-         IF bad = "none" /\ e.n > 0 /\ mode # "nock" /\ e.got # e.want THEN "R_Prefix"
-         \* C17: never more than asked
-         ELSE IF bad = "none" /\ (e.n > e.len \/ e.n < 0) THEN "C17_count"
-         \* C02/C05/C09: nothing after an error
-         ELSE IF bad = "none" /\ errRep /\ ~closedRep /\ (e.n > 0 \/ e.err = "eof") THEN "R_NothingAfterError"
-         \* C17: a closed reader refuses
-         ELSE IF bad = "none" /\ closedRep /\ (e.n > 0 \/ e.err = "eof" \/ (e.err = "none" /\ e.len > 0)) THEN "C17_read_after_close"
-         \* C09/C08: clean EOF only when everything expected was delivered and the stream is not truncated
-         ELSE IF bad = "none" /\ e.err = "eof" /\ mode # "nock" /\ (delivered' # total \/ mode = "truncated") THEN "R_EOFOnlyAtEnd"
-         \* C01/C05: a clean stream never fails and never over-delivers
-         ELSE IF bad = "none" /\ mode = "clean" /\ ~closedRep /\ (e.err = "err" \/ delivered' > total) THEN "R_CleanStreamFails"
-         \* C07: a failed task is reported by the enclosing call
-         ELSE IF bad = "none" /\ callErr /\ e.err # "err" THEN "C07_failure_not_reported"
-         ELSE bad
-    /\ UNCHANGED <<mode, total, from, to, closedRep, holder, lastTok, cancelled, open>>
+    LET d2 == s.delivered + e.n
+        st == [s EXCEPT !.delivered = d2, !.errRep = (s.errRep \/ e.err = "err"), !.eofRep = (s.eofRep \/ e.err = "eof"),
+                        !.callErr = FALSE, !.srcFailed = (s.srcFailed /\ e.err # "err")]
+    IN CheckAll(st, <<
+        \* C05/C02/C11/C01: the bytes returned are the next expected bytes
+        <<~(e.n > 0 /\ s.mode # "nock" /\ e.got # e.want), "R_Prefix">>,
+        \* C17: never more than asked
+        <<e.n >= 0 /\ e.n <= e.len, "C17_count">>,
+        \* C02/C05/C09: nothing after an error
+        \* (after a failure of the source itself a retry may succeed - the header is re-read on purpose - but the
+        \*  error must not turn into a clean end of stream)
+        <<~(s.errRep /\ ~s.closedRep /\ s.mode # "srcfault" /\ (e.n > 0 \/ e.err = "eof")), "R_NothingAfterError">>,
+        \* C17: a closed reader refuses
+        <<~(s.closedRep /\ (e.n > 0 \/ e.err = "eof" \/ (e.err = "none" /\ e.len > 0))), "C17_read_after_close">>,
+        \* C09/C08: clean EOF only when everything expected was delivered and the stream is not truncated
+        <<~(e.err = "eof" /\ s.mode # "nock" /\ (d2 # s.total \/ s.mode = "truncated")), "R_EOFOnlyAtEnd">>,
+        \* C01/C05: a clean stream never fails and never over-delivers
+        <<~(s.mode = "clean" /\ ~s.closedRep /\ (e.err = "err" \/ d2 > s.total)), "R_CleanStreamFails">>,
+        \* C07: a failed task is reported by the enclosing call
+        <<~(s.callErr /\ e.err # "err"), "C07_failure_not_reported">>,
+        \* C08: a source failure is reported before the end of the stream is: it never becomes a clean EOF
+        <<~(s.srcFailed /\ e.err = "eof"), "C08_source_error_as_eof">> >>)
 
-CloseEv(e) ==
-    /\ closedRep' = TRUE
-    /\ bad' = Flag(e.err = "none", "C17_close_fails")
-    /\ UNCHANGED <<mode, total, from, to, delivered, errRep, eofRep, holder, lastTok, cancelled, open, callErr>>
+CloseEv(e) == Check([s EXCEPT !.closedRep = TRUE], e.err = "none" \/ s.mode = "srcfault", "C17_close_fails")
 
-Spawn(e) ==
-    /\ open' = {i \in (e.first + 1)..(e.first + e.n) : TRUE}
-    /\ bad' = Flag(open = {} /\ holder = 0, "C07_batch_overlap")
-    /\ UNCHANGED <<mode, total, from, to, delivered, errRep, eofRep, closedRep, holder, lastTok, cancelled, callErr>>
+GetReadEv(e) == Check([s EXCEPT !.lastGetRead = e.v], e.v >= s.lastGetRead \/ s.closedRep, "C17_counter_not_monotone")
 
-JoinEv(e) ==
-    \* C07: every task of the batch has finished when the batch is joined
-    /\ bad' = Flag(open = {} /\ holder = 0, "C07_join_before_tasks_end")
-    /\ UNCHANGED <<mode, total, from, to, delivered, errRep, eofRep, closedRep, holder, lastTok, cancelled, open, callErr>>
+SrcFail(e) == [s EXCEPT !.srcFailed = (s.srcFailed \/ ~e.complete)]
+
+Spawn(e) == Check([s EXCEPT !.open = (e.first + 1)..(e.first + e.n)], s.open = {} /\ s.holder = 0, "C07_batch_overlap")
+
+\* C07: every task of the batch has finished when the batch is joined
+JoinEv(e) == Check(s, s.open = {} /\ s.holder = 0, "C07_join_before_tasks_end")
 
 Seen(e) ==
-    IF e.tok = -1 THEN
-        /\ UNCHANGED <<mode, total, from, to, delivered, errRep, eofRep, closedRep, holder, lastTok, cancelled, open, callErr, bad>>
-    ELSE
-        /\ holder' = e.id /\ lastTok' = e.id
-        /\ bad' = IF bad = "none" /\ holder # 0 THEN "C07_mutex"                     \* exclusive
-                  ELSE IF bad = "none" /\ e.id # lastTok + 1 THEN "C07_order"         \* increasing block order
-                  \* ("nobody acquires after a published failure" cannot be decided from a free-running log:
-                  \*  the D_SEEN hook runs some time after the load that left the spin loop; it is decided in
-                  \*  replay mode, where the gates make the order total)
-                  ELSE IF bad = "none" /\ e.tok # e.id - 1 THEN "C07_token"
-                  ELSE bad
-        /\ UNCHANGED <<mode, total, from, to, delivered, errRep, eofRep, closedRep, cancelled, open, callErr>>
+    IF e.tok = -1 THEN s
+    ELSE CheckAll([s EXCEPT !.holder = e.id, !.lastTok = e.id], <<
+            <<s.holder = 0, "C07_mutex">>,                 \* exclusive
+            <<e.id = s.lastTok + 1, "C07_order">>,         \* increasing block order
+            <<e.tok = e.id - 1, "C07_token">> >>)
+    \* ("nobody acquires after a published failure" cannot be decided from a free-running log: the D_SEEN hook
+    \*  runs some time after the load that left the spin loop; it is decided in replay mode, where the gates
+    \*  make the order total)
 
-Rel(e) ==
-    /\ holder' = IF holder = e.id THEN 0 ELSE holder
-    /\ UNCHANGED <<mode, total, from, to, delivered, errRep, eofRep, closedRep, lastTok, cancelled, open, callErr, bad>>
+Rel(e) == [s EXCEPT !.holder = IF s.holder = e.id THEN 0 ELSE s.holder]
 
-Dec(e) ==
-    \* C11: blocks outside the range are never decoded
-    /\ bad' = Flag(InRange(e.id), "C11_decoded_outside_range")
-    /\ UNCHANGED <<mode, total, from, to, delivered, errRep, eofRep, closedRep, holder, lastTok, cancelled, open, callErr>>
+\* C11: blocks outside the range are never decoded
+Dec(e) == Check(s, InRange(e.id), "C11_decoded_outside_range")
 
-Fin0(e) ==
-    /\ holder' = IF holder = e.id THEN 0 ELSE holder
-    /\ callErr' = (callErr \/ e.err # 0)
-    /\ UNCHANGED <<mode, total, from, to, delivered, errRep, eofRep, closedRep, lastTok, cancelled, open, bad>>
+Fin0(e) == [s EXCEPT !.holder = IF s.holder = e.id THEN 0 ELSE s.holder, !.callErr = (s.callErr \/ e.err # 0)]
 
-Fin1(e) ==
-    /\ open' = open \ {e.id}
-    /\ cancelled' = (cancelled \/ e.counter = -1)
-    /\ bad' = Flag(e.id \in open, "C07_unknown_task")
-    /\ UNCHANGED <<mode, total, from, to, delivered, errRep, eofRep, closedRep, holder, lastTok, callErr>>
+Fin1(e) == Check([s EXCEPT !.open = s.open \ {e.id}], e.id \in s.open, "C07_unknown_task")
 
 Next ==
     /\ l <= Len(Trace)
     /\ l' = l + 1
     /\ LET e == Trace[l] IN
-         CASE e.ev = "Reset"   -> Reset(e)
-           [] e.ev = "Read"    -> Read(e)
-           [] e.ev = "Close"   -> CloseEv(e)
-           [] e.ev = "R_SPAWN" -> Spawn(e)
-           [] e.ev = "R_JOIN"  -> JoinEv(e)
-           [] e.ev = "D_SEEN"  -> Seen(e)
-           [] e.ev = "D_REL"   -> Rel(e)
-           [] e.ev = "D_DEC"   -> Dec(e)
-           [] e.ev = "D_FIN0"  -> Fin0(e)
-           [] e.ev = "D_FIN1"  -> Fin1(e)
-           [] OTHER            -> UNCHANGED <<mode, total, from, to, delivered, errRep, eofRep, closedRep, holder, lastTok, cancelled, open, callErr, bad>>
+         s' = CASE e.ev = "Reset"    -> Reset(e)
+                [] e.ev = "Read"     -> Read(e)
+                [] e.ev = "Close"    -> CloseEv(e)
+                [] e.ev = "GetRead"  -> GetReadEv(e)
+                [] e.ev = "SRC_FAIL" -> SrcFail(e)
+                [] e.ev = "R_SPAWN"  -> Spawn(e)
+                [] e.ev = "R_JOIN"   -> JoinEv(e)
+                [] e.ev = "D_SEEN"   -> Seen(e)
+                [] e.ev = "D_REL"    -> Rel(e)
+                [] e.ev = "D_DEC"    -> Dec(e)
+                [] e.ev = "D_FIN0"   -> Fin0(e)
+                [] e.ev = "D_FIN1"   -> Fin1(e)
+                [] OTHER             -> s
+    \* report the first violated predicate of each run (the orchestrator reads these lines)
+    /\ (s'.bad # "none" /\ s'.bad # s.bad) => PrintT(<<"VIOLATION_AT", l, s'.bad>>)
 
 Spec == Init /\ [][Next]_vars
 
-NoViolation == bad = "none"
+\* (for single-trace use: fails at the first violating event)
+NoViolation == s.bad = "none"
 \* every line was consumed (one state per line plus the initial state)
 Consumed == TLCGet("stats").diameter - 1 = Len(Trace)
 =============================================================================
